@@ -187,7 +187,7 @@ def export_case(rng):
     k = rng.randint(1, 4)
     corpus = []
     text = rng.choice(["", "%% header\n#FORMAT 4\n", "#BOT ORIGIN\n#EOT ORIGIN\n"])
-    sid = rng.randint(1, 20)
+    sid = rng.choice([rng.randint(1, 20), rng.randint(1, 20), 0, 99, 999, 100000])
     for i in range(k):
         t = abstract_tree(rng, disc=True, full=True)
         bracket_labels(rng, t)
@@ -202,6 +202,9 @@ def export_case(rng):
         # number constituents: any strictly increasing numbering from 500 consistent with bottom-up order is allowed
         cons = [n for n in trees.postorder(t) if n.children and n is not t]
         nums = sorted(rng.sample(range(500, 560), len(cons)))
+        if cons and rng.random() < 0.2:
+            # numbers need not be consecutive: up to the highest legal one
+            nums = sorted(rng.sample(range(500, 999), len(cons) - 1)) + [999] if rng.random() < 0.6 else sorted(rng.sample(range(900, 1000), len(cons)))
         numof = {id(t): 0}
         for n, x in zip(cons, nums):
             numof[id(n)] = x
